@@ -140,4 +140,498 @@ theorem geo2grid_unfold (lat lon zone : ℝ) (ell : Ellipsoid) (prj : Projection
     simp only [if_neg hp]
     rfl
 
+/-! ## 1. Ellipsoid constants -/
+
+/-- C01.1 derived constants of `Ellipsoid(a, 1/f)`; `f·(1/f) = 1` needs `invf ≠ 0`, the axis
+ratio needs `a ≠ 0`. -/
+theorem ellipsoid_constants (a invf : ℝ) (hinv : invf ≠ 0) :
+    let E := Ellipsoid.init a invf
+    E.semimaj = a ∧ E.inversef = invf ∧ E.f * invf = 1 ∧
+    E.n = E.f / (2 - E.f) ∧ E.ecc1sq = E.f * (2 - E.f) ∧ E.semimin = a * (1 - E.f) ∧
+    E.ecc1 = Real.sqrt (E.f * (2 - E.f)) ∧ E.n2 = E.n ^ 2 ∧
+    1 - E.ecc1sq = (1 - E.f) ^ 2 ∧
+    (a ≠ 0 → E.semimin ^ 2 / E.semimaj ^ 2 = 1 - E.ecc1sq) := by
+  intro E
+  refine ⟨rfl, rfl, ?_, rfl, rfl, rfl, rfl, rfl, ?_, ?_⟩
+  · show 1 / invf * invf = 1
+    field_simp
+  · show 1 - (1 / invf) * (2 - 1 / invf) = (1 - 1 / invf) ^ 2
+    ring
+  · intro ha
+    show (a * (1 - 1 / invf)) ^ 2 / a ^ 2 = 1 - (1 / invf) * (2 - 1 / invf)
+    field_simp
+    ring
+
+example : ∃ a invf : ℝ, invf ≠ 0 ∧ a ≠ 0 := ⟨6378137, 298, by norm_num, by norm_num⟩
+
+/-- C01.1 (last clause): the `n` that `rect_radius` recomputes from `inversef` is `ellipsoid.n`
+for every constructed ellipsoid. -/
+theorem rect_radius_n (a invf : ℝ) :
+    let E := Ellipsoid.init a invf
+    (1 / E.inversef) / (2 - 1 / E.inversef) = E.n := by
+  intro E; rfl
+
+/-- C01.2 (explicit form): `rect_radius = a/(1+n)·(1 + n²/4 + n⁴/64 + n⁶/256 + 25n⁸/16384)` with
+the `n` recomputed from `inversef`, for an arbitrary `Ellipsoid` value. -/
+theorem rect_radius_formula (E : Ellipsoid) :
+    let n := (1 / E.inversef) / (2 - 1 / E.inversef)
+    rect_radius E =
+      E.semimaj / (1 + n) * (1 + n ^ 2 / 4 + n ^ 4 / 64 + n ^ 6 / 256 + 25 * n ^ 8 / 16384) := by
+  intro n
+  unfold rect_radius
+  simp only [PyR.pown, PyR.pyfloat]
+  ring
+
+/-- … and for a constructed ellipsoid it is the series in `E.n`. -/
+theorem rect_radius_init (a invf : ℝ) :
+    let E := Ellipsoid.init a invf
+    rect_radius E =
+      a / (1 + E.n) * (1 + E.n ^ 2 / 4 + E.n ^ 4 / 64 + E.n ^ 6 / 256 + 25 * E.n ^ 8 / 16384) := by
+  intro E
+  exact rect_radius_formula E
+
+/-! ## 4. Conformal latitude -/
+
+theorem dec_5_1 : PyR.dec 5 1 = 1 / 2 := by norm_num [PyR.dec]
+theorem dec_15_1 : PyR.dec 15 1 = 3 / 2 := by norm_num [PyR.dec]
+theorem dec_45_1 : PyR.dec 45 1 = 9 / 2 := by norm_num [PyR.dec]
+
+theorem sqrt_one_add_sinh_sq (x : ℝ) : Real.sqrt (1 + Real.sinh x ^ 2) = Real.cosh x := by
+  rw [add_comm, ← Real.cosh_sq, Real.sqrt_sq (Real.cosh_pos x).le]
+
+/-- C01.4 the code's `tan χ` is the defining formula of the conformal latitude,
+`tan χ = sinh(arsinh(tan φ) − e·artanh(e·sin φ))`; the code's `sigx` is `e·sin φ` and the
+argument of its `log` is positive. -/
+theorem conformal_lat_def (e φ : ℝ) (he0 : 0 ≤ e) (he1 : e < 1)
+    (hφ1 : -(Real.pi / 2) < φ) (hφ2 : φ < Real.pi / 2) :
+    e * Real.tan φ / Real.sqrt (1 + Real.tan φ ^ 2) = e * Real.sin φ ∧
+    0 < (1 + e * Real.sin φ) / (1 - e * Real.sin φ) ∧
+    tanConfLat e φ =
+      Real.sinh (Real.arsinh (Real.tan φ) - e * Real.artanh (e * Real.sin φ)) := by
+  have hc : 0 < Real.cos φ := Real.cos_pos_of_mem_Ioo ⟨hφ1, hφ2⟩
+  have hs : e * Real.tan φ / Real.sqrt (1 + Real.tan φ ^ 2) = e * Real.sin φ := by
+    rw [mul_div_assoc, Real.tan_div_sqrt_one_add_tan_sq hc]
+  have habs : |e * Real.sin φ| < 1 := by
+    rw [abs_mul, abs_of_nonneg he0]
+    calc e * |Real.sin φ| ≤ e * 1 := mul_le_mul_of_nonneg_left (Real.abs_sin_le_one φ) he0
+      _ < 1 := by linarith
+  obtain ⟨hlo, hhi⟩ := abs_lt.mp habs
+  refine ⟨hs, div_pos (by linarith) (by linarith), ?_⟩
+  have hart : e * (PyR.dec 5 1 * Real.log ((1 + e * Real.sin φ) / (1 - e * Real.sin φ)))
+      = e * Real.artanh (e * Real.sin φ) := by
+    rw [Real.artanh_eq_half_log ⟨hlo.le, hhi.le⟩, dec_5_1]
+  unfold tanConfLat
+  simp only [hs, hart]
+  rw [Real.sinh_sub, Real.sinh_arsinh, Real.cosh_arsinh, sqrt_one_add_sinh_sq]
+  ring
+
+example : ∃ e φ : ℝ, 0 ≤ e ∧ e < 1 ∧ -(Real.pi / 2) < φ ∧ φ < Real.pi / 2 :=
+  ⟨0, 0, le_refl _, by norm_num, by linarith [Real.pi_pos], by linarith [Real.pi_pos]⟩
+
+/-- `χ = confLat e φ` has `tan χ` equal to the code's expression (total). -/
+theorem tan_confLat (e φ : ℝ) : Real.tan (confLat e φ) = tanConfLat e φ := Real.tan_arctan _
+
+/-- `|χ| < π/2` always. -/
+theorem confLat_mem (e φ : ℝ) : -(Real.pi / 2) < confLat e φ ∧ confLat e φ < Real.pi / 2 :=
+  ⟨Real.neg_pi_div_two_lt_arctan _, Real.arctan_lt_pi_div_two _⟩
+
+/-! ## 5. Gauss–Schreiber -/
+
+theorem eta1_eq_arsinh (χ ω : ℝ) : eta1 χ ω = Real.arsinh (eta1x χ ω) := rfl
+
+/-- C01.5 `(ξ′, η′)` are the spherical transverse Mercator of `(χ, ω)`. -/
+theorem gauss_schreiber_def (χ ω : ℝ) (hω1 : -(Real.pi / 2) < ω) (hω2 : ω < Real.pi / 2) :
+    Real.tan (xi1 χ ω) * Real.cos ω = Real.tan χ ∧
+    Real.sinh (eta1 χ ω) = Real.sin ω / Real.sqrt (Real.tan χ ^ 2 + Real.cos ω ^ 2) ∧
+    (-(Real.pi / 2) < χ → χ < Real.pi / 2 →
+      Real.tanh (eta1 χ ω) = Real.cos χ * Real.sin ω) := by
+  have hc : 0 < Real.cos ω := Real.cos_pos_of_mem_Ioo ⟨hω1, hω2⟩
+  refine ⟨?_, ?_, ?_⟩
+  · unfold xi1
+    rw [Real.tan_arctan]
+    field_simp
+  · rw [eta1_eq_arsinh, Real.sinh_arsinh]; rfl
+  · intro hχ1 hχ2
+    have hcχ : 0 < Real.cos χ := Real.cos_pos_of_mem_Ioo ⟨hχ1, hχ2⟩
+    rw [eta1_eq_arsinh, Real.tanh_arsinh]
+    unfold eta1x
+    set T := Real.tan χ with hT
+    set c := Real.cos ω
+    set s := Real.sin ω
+    have hD2 : 0 < T ^ 2 + c ^ 2 := by positivity
+    set D := Real.sqrt (T ^ 2 + c ^ 2)
+    have hDpos : 0 < D := Real.sqrt_pos.mpr hD2
+    have hDsq : D ^ 2 = T ^ 2 + c ^ 2 := Real.sq_sqrt hD2.le
+    have hsc : s ^ 2 + c ^ 2 = 1 := Real.sin_sq_add_cos_sq ω
+    have hR : 0 < Real.sqrt (1 + T ^ 2) := Real.sqrt_pos.mpr (by positivity)
+    have h1 : Real.sqrt (1 + (s / D) ^ 2) = Real.sqrt (1 + T ^ 2) / D := by
+      rw [show 1 + (s / D) ^ 2 = (Real.sqrt (1 + T ^ 2) / D) ^ 2 by
+        rw [div_pow, div_pow, Real.sq_sqrt (show (0:ℝ) ≤ 1 + T ^ 2 by positivity), hDsq]
+        field_simp
+        linarith]
+      exact Real.sqrt_sq (div_pos hR hDpos).le
+    rw [h1, ← Real.inv_sqrt_one_add_tan_sq hcχ, ← hT]
+    field_simp
+
+example : ∃ χ ω : ℝ, -(Real.pi / 2) < ω ∧ ω < Real.pi / 2 ∧ -(Real.pi / 2) < χ ∧ χ < Real.pi / 2 :=
+  ⟨0, 0, by linarith [Real.pi_pos], by linarith [Real.pi_pos], by linarith [Real.pi_pos],
+    by linarith [Real.pi_pos]⟩
+
+/-! ## 6. Symmetries -/
+
+theorem tanConfLat_neg (e φ : ℝ) : tanConfLat e (-φ) = -tanConfLat e φ := by
+  unfold tanConfLat
+  simp only [Real.tan_neg, neg_sq]
+  have h1 : e * -Real.tan φ / Real.sqrt (1 + Real.tan φ ^ 2)
+      = -(e * Real.tan φ / Real.sqrt (1 + Real.tan φ ^ 2)) := by ring
+  rw [h1]
+  set s := e * Real.tan φ / Real.sqrt (1 + Real.tan φ ^ 2)
+  have h2 : (1 + -s) / (1 - -s) = ((1 + s) / (1 - s))⁻¹ := by
+    rw [inv_div, sub_neg_eq_add, ← sub_eq_add_neg]
+  rw [h2, Real.log_inv, mul_neg, mul_neg, Real.sinh_neg, neg_sq]
+  ring
+
+theorem confLat_neg (e φ : ℝ) : confLat e (-φ) = -confLat e φ := by
+  unfold confLat; rw [tanConfLat_neg, Real.arctan_neg]
+
+theorem confLat_zero (e : ℝ) : confLat e 0 = 0 := by
+  unfold confLat tanConfLat
+  simp
+
+theorem xi1_neg_left (χ ω : ℝ) : xi1 (-χ) ω = -xi1 χ ω := by
+  unfold xi1; rw [Real.tan_neg, neg_div, Real.arctan_neg]
+theorem xi1_neg_right (χ ω : ℝ) : xi1 χ (-ω) = xi1 χ ω := by
+  unfold xi1; rw [Real.cos_neg]
+theorem xi1_zero_left (ω : ℝ) : xi1 0 ω = 0 := by
+  unfold xi1; rw [Real.tan_zero, zero_div, Real.arctan_zero]
+theorem eta1x_neg_left (χ ω : ℝ) : eta1x (-χ) ω = eta1x χ ω := by
+  unfold eta1x; rw [Real.tan_neg, neg_sq]
+theorem eta1x_neg_right (χ ω : ℝ) : eta1x χ (-ω) = -eta1x χ ω := by
+  unfold eta1x; rw [Real.sin_neg, Real.cos_neg, neg_div]
+theorem eta1_neg_left (χ ω : ℝ) : eta1 (-χ) ω = eta1 χ ω := by
+  unfold eta1; rw [eta1x_neg_left]
+theorem eta1_neg_right (χ ω : ℝ) : eta1 χ (-ω) = -eta1 χ ω := by
+  rw [eta1_eq_arsinh, eta1_eq_arsinh, eta1x_neg_right, Real.arsinh_neg]
+theorem eta1_zero_right (χ : ℝ) : eta1 χ 0 = 0 := by
+  rw [eta1_eq_arsinh]
+  unfold eta1x
+  rw [Real.sin_zero, zero_div, Real.arsinh_zero]
+
+/-- C01.7 (series level): parity of the Krüger series in `ξ′` and `η′`, for any coefficients. -/
+theorem series_symmetry (a : Coef) (ξ' η' : ℝ) :
+    xiSeries a (-ξ') η' = -xiSeries a ξ' η' ∧ xiSeries a ξ' (-η') = xiSeries a ξ' η' ∧
+    etaSeries a (-ξ') η' = etaSeries a ξ' η' ∧ etaSeries a ξ' (-η') = -etaSeries a ξ' η' ∧
+    xiSeries a 0 η' = 0 ∧ etaSeries a ξ' 0 = 0 := by
+  unfold xiSeries etaSeries
+  simp only [mul_neg, Real.sin_neg, Real.cos_neg, Real.sinh_neg, Real.cosh_neg, mul_zero,
+    Real.sin_zero, Real.sinh_zero, zero_mul, add_zero]
+  refine ⟨?_, trivial, trivial, ?_, trivial, trivial⟩ <;> ring
+
+/-- C01.7 `geo2grid_symmetry`: the TM coordinates before scale/false origin (`x = A·η`, `y = A·ξ`
+as functions of latitude `φ` and longitude difference `ω`, exactly the composition the code
+performs — see `geo2grid_unfold`) have the symmetries of the transverse Mercator, for every
+ellipsoid value. -/
+theorem geo2grid_symmetry (ell : Ellipsoid) (φ ω : ℝ) :
+    tmY ell (-φ) ω = -tmY ell φ ω ∧ tmX ell (-φ) ω = tmX ell φ ω ∧
+    tmX ell φ (-ω) = -tmX ell φ ω ∧ tmY ell φ (-ω) = tmY ell φ ω ∧
+    tmX ell φ 0 = 0 ∧ tmY ell 0 ω = 0 := by
+  unfold tmX tmY tmXi tmEta
+  obtain ⟨h1, h2, h3, h4, h5, h6⟩ := series_symmetry (alpha_coeff ell)
+    (xi1 (confLat ell.ecc1 φ) ω) (eta1 (confLat ell.ecc1 φ) ω)
+  refine ⟨?_, ?_, ?_, ?_, ?_, ?_⟩
+  · rw [confLat_neg, xi1_neg_left, eta1_neg_left, h1, mul_neg]
+  · rw [confLat_neg, xi1_neg_left, eta1_neg_left, h3]
+  · rw [xi1_neg_right, eta1_neg_right, h4, mul_neg]
+  · rw [xi1_neg_right, eta1_neg_right, h2]
+  · rw [eta1_zero_right, (series_symmetry _ _ 0).2.2.2.2.2, mul_zero]
+  · rw [confLat_zero, xi1_zero_left, (series_symmetry _ 0 _).2.2.2.2.1, mul_zero]
+
+/-! ## 8. False origin and hemisphere -/
+
+/-- C01.8 decision logic, for an arbitrary `Projection`: `east = k₀·A·η + FE`; if `y = A·ξ < 0`
+the label is "South" and `north = k₀·A·ξ + FN`, otherwise "North" and `north = k₀·A·ξ + 0`. -/
+theorem false_origin_and_hemisphere (lat lon zone : ℝ) (ell : Ellipsoid) (prj : Projection)
+    (hv : Valid lat lon zone prj) :
+    let φ := PyR.radians lat
+    let z := zoneOf prj zone lon
+    let cm := cmOf prj z
+    let ω := PyR.radians (lon - cm)
+    let χ := confLat ell.ecc1 φ
+    let A := rect_radius ell
+    let ξ := tmXi ell φ ω
+    let η := tmEta ell φ ω
+    let pg := psfandgridconv (xi1 χ ω) (eta1 χ ω) (PyR.degrees φ) lon cm χ ell prj
+    (A * ξ < 0 → geo2grid lat lon zone ell prj = Except.ok
+        ("South", z, PyR.pround 4 (prj.cmscale * (A * η) + prj.falseeast),
+          PyR.pround 4 (prj.cmscale * (A * ξ) + prj.falsenorth), PyR.pround 8 pg.1, pg.2)) ∧
+    (0 ≤ A * ξ → geo2grid lat lon zone ell prj = Except.ok
+        ("North", z, PyR.pround 4 (prj.cmscale * (A * η) + prj.falseeast),
+          PyR.pround 4 (prj.cmscale * (A * ξ) + 0), PyR.pround 8 pg.1, pg.2)) := by
+  intro φ z cm ω χ A ξ η pg
+  constructor
+  · intro h
+    have h' : tmY ell (PyR.radians lat)
+        (PyR.radians (lon - cmOf prj (zoneOf prj zone lon))) < 0 := h
+    rw [geo2grid_unfold lat lon zone ell prj hv]
+    simp only [if_pos h']
+    rfl
+  · intro h
+    have h' : ¬ tmY ell (PyR.radians lat)
+        (PyR.radians (lon - cmOf prj (zoneOf prj zone lon))) < 0 := not_lt.mpr h
+    rw [geo2grid_unfold lat lon zone ell prj hv]
+    simp only [if_neg h']
+    rfl
+
+/-! ## 9. Automatic zone -/
+
+theorem trunc_of_nonneg {x : ℝ} (h : 0 ≤ x) : PyR.trunc x = (⌊x⌋ : ℝ) := by
+  unfold PyR.trunc; rw [if_neg (not_lt.mpr h)]
+
+theorem trunc_zero : PyR.trunc 0 = 0 := by
+  rw [trunc_of_nonneg (le_refl _)]; simp
+
+/-- C01.9 for every non-ISG projection with zone width `w > 0` and every `lon ≥ c₀ − 1.5w`: the
+automatically selected zone is `⌊(lon − (c₀ − 1.5w))/w⌋` and the longitude lies within half a zone
+width of that zone's central meridian (`−w/2 ≤ lon − cm < w/2`). -/
+theorem utm_auto_zone (prj : Projection) (lon : ℝ) (hp : prj.pyid ≠ isg.pyid)
+    (hw : 0 < prj.zonewidth) (hlo : prj.initialcm - 3 / 2 * prj.zonewidth ≤ lon) :
+    let z := autoZoneUtm prj lon
+    z = (⌊(lon - (prj.initialcm - 3 / 2 * prj.zonewidth)) / prj.zonewidth⌋ : ℝ) ∧
+    -(prj.zonewidth / 2) ≤ lon - cmOf prj z ∧ lon - cmOf prj z < prj.zonewidth / 2 ∧
+    |lon - cmOf prj z| ≤ prj.zonewidth / 2 := by
+  intro z
+  set w := prj.zonewidth with hwdef
+  set c₀ := prj.initialcm with hcdef
+  set u := (lon - (c₀ - 3 / 2 * w)) / w with hu
+  have hu0 : 0 ≤ u := div_nonneg (by linarith) hw.le
+  have hz : z = (⌊u⌋ : ℝ) := by
+    show autoZoneUtm prj lon = _
+    unfold autoZoneUtm
+    rw [dec_15_1]
+    exact trunc_of_nonneg hu0
+  have hcm : cmOf prj z = (z * w + c₀) - w := by
+    unfold cmOf; rw [if_neg hp]
+  have hlon : lon = u * w + c₀ - 3 / 2 * w := by
+    rw [hu]; field_simp; ring
+  have h1 : (⌊u⌋ : ℝ) ≤ u := Int.floor_le u
+  have h2 : u < (⌊u⌋ : ℝ) + 1 := Int.lt_floor_add_one u
+  have e : lon - cmOf prj z = (u - (⌊u⌋ : ℝ)) * w - w / 2 := by
+    rw [hcm, hz, hlon]; ring
+  have a1 : 0 ≤ (u - (⌊u⌋ : ℝ)) * w := mul_nonneg (by linarith) hw.le
+  have a2 : (u - (⌊u⌋ : ℝ)) * w < 1 * w := mul_lt_mul_of_pos_right (by linarith) hw
+  refine ⟨hz, by rw [e]; linarith, by rw [e]; linarith, ?_⟩
+  rw [abs_le, e]; constructor <;> linarith
+
+example : utm.pyid ≠ isg.pyid ∧ 0 < utm.zonewidth ∧
+    utm.initialcm - 3 / 2 * utm.zonewidth ≤ (-180 : ℝ) := by
+  refine ⟨by decide, ?_, ?_⟩
+  · show (0 : ℝ) < 6; norm_num
+  · show (-(177 : ℝ)) - 3 / 2 * 6 ≤ -180; norm_num
+
+/-- … and when `zone = 0` is passed with a non-ISG projection that automatic zone is the zone
+`geo2grid` uses and returns. -/
+theorem zoneOf_auto (prj : Projection) (zone lon : ℝ) (hp : prj.pyid ≠ isg.pyid)
+    (hz : PyR.trunc zone = 0) : zoneOf prj zone lon = autoZoneUtm prj lon := by
+  unfold zoneOf; rw [if_pos hz, if_neg hp]
+
+/-- an explicit non-zero zone is used as given (truncated) -/
+theorem zoneOf_explicit (prj : Projection) (zone lon : ℝ) (hz : PyR.trunc zone ≠ 0) :
+    zoneOf prj zone lon = PyR.trunc zone := by
+  unfold zoneOf; rw [if_neg hz]
+
+theorem autoZoneUtm_utm (lon : ℝ) : autoZoneUtm utm lon = PyR.trunc ((lon + 186) / 6) := by
+  unfold autoZoneUtm
+  rw [dec_15_1]
+  show PyR.trunc ((lon - (-(177 : ℝ) - 3 / 2 * 6)) / 6) = _
+  congr 1; ring
+
+/-- C01.9 (UTM): for `lon ∈ [−180, 180)` the automatic UTM zone is in `1..60`. -/
+theorem utm_zone_range (lon : ℝ) (h1 : -180 ≤ lon) (h2 : lon < 180) :
+    1 ≤ autoZoneUtm utm lon ∧ autoZoneUtm utm lon ≤ 60 := by
+  rw [autoZoneUtm_utm, trunc_of_nonneg (by linarith)]
+  constructor
+  · have : (1 : ℤ) ≤ ⌊(lon + 186) / 6⌋ := Int.le_floor.mpr (by push_cast; linarith)
+    exact_mod_cast this
+  · have : ⌊(lon + 186) / 6⌋ < (61 : ℤ) := Int.floor_lt.mpr (by push_cast; linarith)
+    have : ⌊(lon + 186) / 6⌋ ≤ (60 : ℤ) := by omega
+    exact_mod_cast this
+
+/-- Observation: at `lon = 180` exactly (which passes validation) the formula selects zone 61. -/
+theorem utm_zone_at_180 : autoZoneUtm utm 180 = 61 := by
+  rw [autoZoneUtm_utm, trunc_of_nonneg (by norm_num)]
+  rw [show ((180 : ℝ) + 186) / 6 = ((61 : ℤ) : ℝ) by norm_num, Int.floor_intCast]
+  norm_num
+
+/-! ## 10. Validation -/
+
+/-- the disjunction of the failing validations -/
+def Invalid (lat lon zone : ℝ) (prj : Projection) : Prop :=
+  (prj.pyid = isg.pyid ∧
+      ¬ (PyR.trunc zone = 0 ∨ PyR.trunc zone = 541 ∨ PyR.trunc zone = 542 ∨ PyR.trunc zone = 543 ∨
+      PyR.trunc zone = 551 ∨ PyR.trunc zone = 552 ∨ PyR.trunc zone = 553 ∨ PyR.trunc zone = 561 ∨
+      PyR.trunc zone = 562 ∨ PyR.trunc zone = 563 ∨ PyR.trunc zone = 572)) ∨
+  (prj.pyid ≠ isg.pyid ∧ (PyR.trunc zone < 0 ∨ PyR.trunc zone > 60)) ∨
+  lat < -80 ∨ lat > 84 ∨ lon < -180 ∨ lon > 180
+
+theorem isg_pyid : isg.pyid = 2 := rfl
+theorem utm_pyid : utm.pyid = 1 := rfl
+
+theorem not_valid_iff (lat lon zone : ℝ) (prj : Projection) :
+    ¬ Valid lat lon zone prj ↔ Invalid lat lon zone prj := by
+  unfold Valid ZoneOk Invalid
+  by_cases hp : prj.pyid = isg.pyid <;> simp only [hp, ne_eq, not_true_eq_false, not_false_eq_true,
+    true_and, false_and, false_or, or_false, true_imp_iff, false_imp_iff, and_true, true_and] <;>
+    tauto
+
+/-- `geo2grid` raises `ValueError` when any validation fails. -/
+theorem geo2grid_invalid (lat lon zone : ℝ) (ell : Ellipsoid) (prj : Projection)
+    (h : ¬ Valid lat lon zone prj) :
+    geo2grid lat lon zone ell prj = Except.error PyErr.ValueError := by
+  unfold geo2grid
+  by_cases hp : prj.pyid = isg.pyid
+  · by_cases hz : (PyR.trunc zone = 0 ∨ PyR.trunc zone = 541 ∨ PyR.trunc zone = 542 ∨
+      PyR.trunc zone = 543 ∨ PyR.trunc zone = 551 ∨ PyR.trunc zone = 552 ∨ PyR.trunc zone = 553 ∨
+      PyR.trunc zone = 561 ∨ PyR.trunc zone = 562 ∨ PyR.trunc zone = 563 ∨ PyR.trunc zone = 572)
+    · by_cases hlat : (lat < -80 ∨ lat > 84)
+      · simp only [if_pos hp, feq, if_neg (not_not.mpr hz), if_pos hlat, Except.bind]
+      · by_cases hlon : (lon < -180 ∨ lon > 180)
+        · simp only [if_pos hp, feq, if_neg (not_not.mpr hz), if_neg hlat, if_pos hlon,
+            Except.bind]
+        · exact absurd ⟨⟨fun _ => hz, fun h' => absurd hp h'⟩, hlat, hlon⟩ h
+    · simp only [if_pos hp, feq, if_pos hz, Except.bind]
+  · by_cases hz : (PyR.trunc zone < 0 ∨ PyR.trunc zone > 60)
+    · simp only [if_neg hp, if_pos hz, Except.bind]
+    · by_cases hlat : (lat < -80 ∨ lat > 84)
+      · simp only [if_neg hp, if_neg hz, if_pos hlat, Except.bind]
+      · by_cases hlon : (lon < -180 ∨ lon > 180)
+        · simp only [if_neg hp, if_neg hz, if_neg hlat, if_pos hlon, Except.bind]
+        · exact absurd ⟨⟨fun h' => absurd h' hp, fun _ => hz⟩, hlat, hlon⟩ h
+
+/-- C01.10 `geo2grid` raises (`ValueError`) iff the zone is not admissible for the projection or
+`lat ∉ [−80, 84]` or `lon ∉ [−180, 180]`; otherwise it returns a value. -/
+theorem validation_logic (lat lon zone : ℝ) (ell : Ellipsoid) (prj : Projection) :
+    (geo2grid lat lon zone ell prj = Except.error PyErr.ValueError ↔ Invalid lat lon zone prj) ∧
+    (¬ Invalid lat lon zone prj ↔ ∃ r, geo2grid lat lon zone ell prj = Except.ok r) := by
+  rw [← not_valid_iff]
+  constructor
+  · constructor
+    · intro h hv
+      rw [geo2grid_unfold lat lon zone ell prj hv] at h
+      cases h
+    · exact geo2grid_invalid lat lon zone ell prj
+  · rw [not_not]
+    constructor
+    · intro hv
+      exact ⟨_, geo2grid_unfold lat lon zone ell prj hv⟩
+    · rintro ⟨r, hr⟩
+      by_contra hv
+      rw [geo2grid_invalid lat lon zone ell prj hv] at hr
+      cases hr
+
+/-- the individual clauses (← direction), spelled out -/
+theorem validation_clauses (lat lon zone : ℝ) (ell : Ellipsoid) (prj : Projection) :
+    (lat < -80 → geo2grid lat lon zone ell prj = Except.error PyErr.ValueError) ∧
+    (lat > 84 → geo2grid lat lon zone ell prj = Except.error PyErr.ValueError) ∧
+    (lon < -180 → geo2grid lat lon zone ell prj = Except.error PyErr.ValueError) ∧
+    (lon > 180 → geo2grid lat lon zone ell prj = Except.error PyErr.ValueError) ∧
+    (prj.pyid ≠ isg.pyid → PyR.trunc zone < 0 →
+      geo2grid lat lon zone ell prj = Except.error PyErr.ValueError) ∧
+    (prj.pyid ≠ isg.pyid → PyR.trunc zone > 60 →
+      geo2grid lat lon zone ell prj = Except.error PyErr.ValueError) ∧
+    (prj.pyid = isg.pyid →
+      ¬ (PyR.trunc zone = 0 ∨ PyR.trunc zone = 541 ∨ PyR.trunc zone = 542 ∨ PyR.trunc zone = 543 ∨
+      PyR.trunc zone = 551 ∨ PyR.trunc zone = 552 ∨ PyR.trunc zone = 553 ∨ PyR.trunc zone = 561 ∨
+      PyR.trunc zone = 562 ∨ PyR.trunc zone = 563 ∨ PyR.trunc zone = 572) →
+      geo2grid lat lon zone ell prj = Except.error PyErr.ValueError) := by
+  have key := (validation_logic lat lon zone ell prj).1.2
+  unfold Invalid at key
+  refine ⟨fun h => key ?_, fun h => key ?_, fun h => key ?_, fun h => key ?_,
+    fun hp h => key ?_, fun hp h => key ?_, fun hp h => key ?_⟩
+  · exact Or.inr (Or.inr (Or.inl h))
+  · exact Or.inr (Or.inr (Or.inr (Or.inl h)))
+  · exact Or.inr (Or.inr (Or.inr (Or.inr (Or.inl h))))
+  · exact Or.inr (Or.inr (Or.inr (Or.inr (Or.inr h))))
+  · exact Or.inr (Or.inl ⟨hp, Or.inl h⟩)
+  · exact Or.inr (Or.inl ⟨hp, Or.inr h⟩)
+  · exact Or.inl ⟨hp, h⟩
+
+/-- the default call shape `geo2grid lat lon 0 ell utm` is valid on the documented domain -/
+theorem valid_utm_auto (lat lon : ℝ) (h1 : -80 ≤ lat) (h2 : lat ≤ 84) (h3 : -180 ≤ lon)
+    (h4 : lon ≤ 180) : Valid lat lon 0 utm := by
+  refine ⟨⟨fun h => absurd h (by decide), fun _ => ?_⟩, ?_, ?_⟩
+  · rw [trunc_zero]; norm_num
+  · rintro (h | h) <;> linarith
+  · rintro (h | h) <;> linarith
+
+/-- Observation at the level of `geo2grid`: `lon = 180` is accepted and the returned zone is 61
+(outside 1..60). -/
+theorem geo2grid_utm_zone_at_180 (lat : ℝ) (ell : Ellipsoid) (h1 : -80 ≤ lat) (h2 : lat ≤ 84) :
+    ∃ r, geo2grid lat 180 0 ell utm = Except.ok r ∧ r.2.1 = 61 := by
+  have hv := valid_utm_auto lat 180 h1 h2 (by norm_num) (le_refl _)
+  refine ⟨_, geo2grid_unfold lat 180 0 ell utm hv, ?_⟩
+  show zoneOf utm 0 180 = 61
+  rw [zoneOf_auto utm 0 180 (by decide) trunc_zero, utm_zone_at_180]
+
+/-- … whereas for `lon ∈ [−180, 180)` the returned UTM zone is in 1..60 and the point is within
+3° of the central meridian used. -/
+theorem geo2grid_utm_zone (lat lon : ℝ) (ell : Ellipsoid) (h1 : -80 ≤ lat) (h2 : lat ≤ 84)
+    (h3 : -180 ≤ lon) (h4 : lon < 180) :
+    ∃ r, geo2grid lat lon 0 ell utm = Except.ok r ∧ 1 ≤ r.2.1 ∧ r.2.1 ≤ 60 ∧
+      |lon - cmOf utm r.2.1| ≤ 3 := by
+  have hv := valid_utm_auto lat lon h1 h2 h3 h4.le
+  refine ⟨_, geo2grid_unfold lat lon 0 ell utm hv, ?_⟩
+  show 1 ≤ zoneOf utm 0 lon ∧ zoneOf utm 0 lon ≤ 60 ∧ |lon - cmOf utm (zoneOf utm 0 lon)| ≤ 3
+  rw [zoneOf_auto utm 0 lon (by decide) trunc_zero]
+  obtain ⟨a, b⟩ := utm_zone_range lon h3 h4
+  refine ⟨a, b, ?_⟩
+  have := (utm_auto_zone utm lon (by decide) (by show (0 : ℝ) < 6; norm_num)
+    (by show (-(177 : ℝ)) - 3 / 2 * 6 ≤ lon; linarith)).2.2.2
+  have hw : utm.zonewidth / 2 = 3 := by show (6 : ℝ) / 2 = 3; norm_num
+  rw [hw] at this
+  exact this
+
+/-! ## 11. Rounding -/
+
+/-- C01.11 (exact-arithmetic reading of `round(x, 4)`) -/
+theorem round4_close (x : ℝ) : |PyR.pround 4 x - x| ≤ 5 / 100000 := by
+  have := PyR.pround_close 4 x
+  norm_num at this ⊢
+  exact this
+
+/-- the returned easting/northing are within 0.05 mm of `k₀·A·η + FE`, `k₀·A·ξ + FN|0` -/
+theorem geo2grid_rounding (lat lon zone : ℝ) (ell : Ellipsoid) (prj : Projection)
+    (hv : Valid lat lon zone prj) :
+    let φ := PyR.radians lat
+    let ω := PyR.radians (lon - cmOf prj (zoneOf prj zone lon))
+    ∃ r, geo2grid lat lon zone ell prj = Except.ok r ∧
+      |r.2.2.1 - (prj.cmscale * tmX ell φ ω + prj.falseeast)| ≤ 5 / 100000 ∧
+      |r.2.2.2.1 - (prj.cmscale * tmY ell φ ω +
+          (if tmY ell φ ω < 0 then prj.falsenorth else 0))| ≤ 5 / 100000 := by
+  intro φ ω
+  refine ⟨_, geo2grid_unfold lat lon zone ell prj hv, round4_close _, ?_⟩
+  by_cases h : tmY ell φ ω < 0
+  · simp only [if_pos h]; exact round4_close _
+  · simp only [if_neg h]; exact round4_close _
+
+/-! ## 12. Call site of `psfandgridconv` -/
+
+/-- C01 `psf_call_site`: the 5th and 6th components are `round(psf, 8)` and `grid_conv` of
+`psfandgridconv ξ′ η′ lat lon cm χ` called with the caller's OWN `ell` and `prj`. -/
+theorem psf_call_site (lat lon zone : ℝ) (ell : Ellipsoid) (prj : Projection)
+    (hv : Valid lat lon zone prj) :
+    let cm := cmOf prj (zoneOf prj zone lon)
+    let ω := PyR.radians (lon - cm)
+    let χ := confLat ell.ecc1 (PyR.radians lat)
+    let pg := psfandgridconv (xi1 χ ω) (eta1 χ ω) lat lon cm χ ell prj
+    ∃ r, geo2grid lat lon zone ell prj = Except.ok r ∧
+      r.2.2.2.2.1 = PyR.pround 8 pg.1 ∧ r.2.2.2.2.2 = pg.2 := by
+  intro cm ω χ pg
+  refine ⟨_, geo2grid_unfold lat lon zone ell prj hv, ?_, ?_⟩
+  · show PyR.pround 8 (psfandgridconv (xi1 χ ω) (eta1 χ ω) (PyR.degrees (PyR.radians lat)) lon cm χ
+      ell prj).1 = _
+    rw [PyR.degrees_radians]
+  · show (psfandgridconv (xi1 χ ω) (eta1 χ ω) (PyR.degrees (PyR.radians lat)) lon cm χ
+      ell prj).2 = _
+    rw [PyR.degrees_radians]
+
 end GeodeVerif.C01
